@@ -167,3 +167,51 @@ Proof. unfold zone_sorted, ex_zone. repeat (constructor; [|repeat (constructor; 
 
 Example ex_zone_no_soa : generate_nsecs ex_apex true (tl (tl ex_zone)) = Err 1.
 Proof. vm_compute. reflexivity. Qed.
+
+(* ---- statements in the form exported by Props.v *)
+Lemma sorted_weaken {A} (R S : A -> A -> Prop) (l : list A) :
+  (forall a b, R a b -> S a b) -> StronglySorted R l -> StronglySorted S l.
+Proof.
+  intros H. induction 1 as [|a l _ IH F]; constructor; [exact IH|].
+  eapply Forall_impl; [|exact F]. intros b. apply H.
+Qed.
+
+Theorem nsec_one_per_auth_name apex z dk out :
+  zone_sorted z -> generate_nsecs apex dk z = Ok out ->
+  (forall n, auth_name apex z n <-> exists r, In r out /\ name_eqb (n_owner r) n = true) /\
+  StronglySorted (fun a b => name_eqb (n_owner a) (n_owner b) = false) out.
+Proof.
+  intros Hs Ho. split; [exact (nsec_owners apex z Hs dk out Ho)|].
+  eapply sorted_weaken; [|exact (nsec_sorted apex z Hs dk out Ho)].
+  intros a b Hab. apply lt_not_eqb. exact Hab.
+Qed.
+
+Theorem nsec_sorted_canonical apex z dk out :
+  zone_sorted z -> generate_nsecs apex dk z = Ok out ->
+  StronglySorted (fun a b => name_cmp (n_owner a) (n_owner b) = Lt) out.
+Proof. intros Hs Ho. exact (nsec_sorted apex z Hs dk out Ho). Qed.
+
+Theorem nsec_bitmap_exact' apex z dk out :
+  zone_sorted z -> types_ok z -> generate_nsecs apex dk z = Ok out ->
+  forall r, In r out -> forall t,
+  exists b, bm_contains (n_types r) t = Ok b /\
+    (b = true <->
+     t = 46 \/ t = 47 \/ (dk = true /\ name_eqb (n_owner r) apex = true /\ t = 48) \/
+     (has_type z (n_owner r) t /\ (deleg apex z (n_owner r) -> t = 2 \/ t = 43))).
+Proof. intros Hs Ht Ho. exact (nsec_bitmap_exact apex z Hs dk out Ho Ht). Qed.
+
+(* the example zone: its four NSECs are the four authoritative names, and
+   the glue name g.z.ex. / type AAAA is covered by the last NSEC *)
+Example ex_zone_denies :
+  exists r, In r [ mk_nsec [[122]; [101; 120]] [[101; 120]] [0; 6; 32; 0; 0; 0; 0; 3] ] /\
+            nsec_covers r [[103]; [122]; [101; 120]].
+Proof. eexists. split; [left; reflexivity|]. split; [vm_compute; reflexivity|right; vm_compute; discriminate]. Qed.
+
+From DV Require Import C11.Sha.
+Theorem nsec3_hash_is_rfc5155 n iterations salt :
+  c13_hash n iterations salt = rfc5155_IH sha1 salt (wire_abs (canon n)) (N.to_nat iterations) /\
+  length (c13_hash n iterations salt) = 20%nat.
+Proof.
+  unfold c13_hash. rewrite nsec3_hash_rfc5155. split; [reflexivity|].
+  destruct (N.to_nat iterations); apply sha1_length.
+Qed.
